@@ -34,9 +34,23 @@ HImplCmp(i, e) ==
                        [i EXCEPT !.ist = ist2] >>
     [] e.kind = "hmutate" ->
          IF ~IMutOk(i.ist, e.h, e.d, e.f) THEN << {"hist.place"}, i >>
-         ELSE LET ist2 == IMutate(i.ist, e.h, e.d, e.f)
+         ELSE LET ist2 == IMutate(VEnv, i.ist, e.h, e.d, e.f)
               IN << F("hist.heap", e.heap = Snapshot(ist2)),
                     [i EXCEPT !.ist = ist2] >>
+    [] e.kind = "hobs" ->
+         IF e.h \notin DOMAIN i.ist.roots \/ e.printed # "ok"
+         THEN << {}, i >>
+         ELSE LET a == i.ist.roots[e.h]
+                  kind == i.ist.cells[a].kind
+                  pr == IPrint(VEnv, i.ist, a, e.fmt)
+                  \* the parse of the observation allocates; it only matters
+                  \* for later steps if from_wbem_uri goes through a cache
+                  st2 == IF VEnv.cache # "none" /\ e.outcome = "path" /\
+                            ParseU(VEnv, kind, pr.text).ok
+                         THEN AllocU(VEnv, pr.st, kind, pr.text, FALSE).st
+                         ELSE pr.st
+              IN << F("print." \o e.fmt, e.text = pr.text),
+                    [i EXCEPT !.ist = st2] >>
     [] OTHER -> << {}, i >>
 
 ImplCmp(i, e) ==
